@@ -1,13 +1,12 @@
 // mark-and-sweep, scans only num_registers per frame
 // TODO: incremental/generational GC would be nice for larger heaps
 
-use super::{GcRef, MAX_NO_GC_DEPTH, VM};
+use super::{GcRef, VM};
 
 impl VM {
     pub fn enter_no_gc(&mut self) {
-        if self.no_gc_depth >= MAX_NO_GC_DEPTH {
-            return;
-        }
+        // counts exactly like the EnterNoGc opcode: a silent stop at some bound would make the
+        // matching exit_no_gc calls re-enable collection while regions are still open
         self.no_gc_depth += 1;
     }
 
